@@ -26,8 +26,8 @@ struct Plan {
     /// the DATA inputs are drawn from peer_chunks(sc, w, t0) in rustrtc's own fragmentation
     spec: bool,
     note: String,
-    /// Some(n): the history is handshake ++ n regular single-chunk messages (`seq_data`) ++ rest
-    seq_prefix: Option<usize>,
+    /// Some((at, n, i0)): hist[at..at+n] are the regular single-chunk messages i0, i0+1, .. (`seq_data`)
+    seq_prefix: Option<(usize, usize, u32)>,
 }
 
 fn handshake(client: bool, t0: u32) -> Vec<Input> {
@@ -147,7 +147,9 @@ fn gen_malformed(rng: &mut Rng) -> Plan {
     let mut hist = handshake(client, t0);
     let n = rng.range(1, 14);
     for _ in 0..n {
-        let tsn = t0.wrapping_add(rng.below(8) as u32).wrapping_sub(rng.below(3) as u32);
+        // near the cumulative point, or at the edges of the 2^31 window of the duplicate test
+        let tsn = if rng.chance(1, 6) { t0.wrapping_add(0x7FFF_FFFE).wrapping_add(rng.below(5) as u32) }
+            else { t0.wrapping_add(rng.below(8) as u32).wrapping_sub(rng.below(3) as u32) };
         let dl = rng.below(4) as usize;
         let d = DataC { tsn, flags: rng.below(8) as u8, sid: rng.below(3) as u16, ssn: rng.below(4) as u16, ppid: if rng.chance(1, 12) { 52 } else { 53 },
             data: rng.bytes(dl) };
@@ -240,27 +242,35 @@ fn ssn_wrap_plan() -> Plan {
     for c in &cs[..pre] { hist.push(Input::Data(c.clone())); }
     for i in [65_531usize, 65_530, 65_533, 65_535, 65_534, 65_532, 65_531, 65_537, 65_536, 65_539, 65_538, 65_536] { hist.push(Input::Data(cs[i].clone())); }
     Plan { kind: "ssn-wrap", client: false, chans: vec![ChanCfg::negotiated(0, true)], sc, w, t0, hist, spec: false, note: "65540 ordered messages across the SSN wrap".into(),
-        seq_prefix: Some(pre) }
+        seq_prefix: Some((2, pre, 0)) }
 }
 
 fn plan_term(p: &Plan, o: &Observed, spec: Option<(&[SChan], &[Sub], u32)>) -> String {
     match p.seq_prefix {
         None => recv_case_term(&p.chans, &p.hist, o, spec),
-        Some(pre) => {
+        Some((at, pre, i0)) => {
             // the compact rendering must denote exactly the history that was run
-            for (k, i) in p.hist[2..2 + pre].iter().enumerate() {
-                let k = k as u32;
+            for (k, i) in p.hist[at..at + pre].iter().enumerate() {
+                let k = i0 + k as u32;
                 assert_eq!(*i, Input::Data(DataC { tsn: p.t0.wrapping_add(k), flags: 3, sid: 0, ssn: k as u16, ppid: 53, data: seq_msg(k) }));
             }
-            let head = list_term(&p.hist[..2].iter().map(|i| format!("({})", i.term())).collect::<Vec<_>>());
-            let tail = list_term(&p.hist[2 + pre..].iter().map(|i| format!("({})", i.term())).collect::<Vec<_>>());
-            let hist_term = format!("({} ++ seq_data {} 0 {} 0 ++ {})", head, pre, p.t0, tail);
+            let head = list_term(&p.hist[..at].iter().map(|i| format!("({})", i.term())).collect::<Vec<_>>());
+            let tail = list_term(&p.hist[at + pre..].iter().map(|i| format!("({})", i.term())).collect::<Vec<_>>());
+            let hist_term = format!("({} ++ seq_data {} {} {} 0 ++ {})", head, pre, i0, p.t0, tail);
             let obs = o.per_chan.iter().map(|(s, e)| {
-                // longest prefix of the observed stream that is Open followed by the regular messages
-                let mut k = 0usize;
-                if e.first() == Some(&Ev::Open) { while 1 + k < e.len() && e[1 + k] == Ev::Msg(seq_msg(k as u32)) { k += 1; } }
-                if k > 1000 {
-                    format!("({}, (EOpen :: seq_evs {} 0) ++ {})", s, k, list_term(&e[1 + k..].iter().map(|x| x.term()).collect::<Vec<_>>()))
+                // the longest run of regular messages i, i+1, .. in the observed stream
+                let mut best = (0usize, 0usize, 0u32);
+                for a in 0..e.len().min(6) {
+                    for k0 in [0u32, 1] {
+                        let mut n = 0usize;
+                        while a + n < e.len() && e[a + n] == Ev::Msg(seq_msg(k0 + n as u32)) { n += 1; }
+                        if n > best.1 { best = (a, n, k0); }
+                    }
+                }
+                let (a, n, k0) = best;
+                if n > 1000 {
+                    format!("({}, {} ++ seq_evs {} {} ++ {})", s, list_term(&e[..a].iter().map(|x| x.term()).collect::<Vec<_>>()), n, k0,
+                        list_term(&e[a + n..].iter().map(|x| x.term()).collect::<Vec<_>>()))
                 } else {
                     format!("({}, {})", s, big_list(&e.iter().map(|x| x.term()).collect::<Vec<_>>()))
                 }
@@ -285,6 +295,18 @@ fn pre_established_plans() -> Vec<Plan> {
         Input::Data(cs[2].clone())];
     v.push(Plan { kind: "known-finding", client: true, chans: ch0.clone(), sc: sc0.clone(), w: w.clone(), t0, hist, spec: true,
         note: "late duplicate INIT-ACK before COOKIE-ACK, after DATA".into(), seq_prefix: None });
+    // the same replay, then 65 536 more ordered messages: when the SSN wraps, the stale copy of message 0
+    // (parked in the ordered stream's pending map by the replay) is delivered a second time and message
+    // 65 536 never: the delivered sequence is not a prefix (Proofs/SctpWrapWitness.v is this history)
+    {
+        let n = 65_537u32;
+        let w: Vec<Sub> = (0..n).map(|i| Sub { sid: 0, ppid: 53, data: seq_msg(i) }).collect();
+        let cs = peer_chunks(&sc0, &w, t0, true);
+        let mut hist = vec![Input::InitAck(t0, true), Input::Data(cs[0].clone()), Input::InitAck(t0, true), Input::Data(cs[0].clone()), Input::CookieAck];
+        for c in &cs[1..] { hist.push(Input::Data(c.clone())); }
+        v.push(Plan { kind: "known-finding", client: true, chans: ch0.clone(), sc: sc0.clone(), w, t0, hist, spec: false,
+            note: "INIT-ACK replay before COOKIE-ACK, then 65536 messages across the SSN wrap".into(), seq_prefix: Some((5, n as usize - 1, 1)) });
+    }
     v
 }
 
